@@ -155,7 +155,7 @@ impl NameCompressor {
 
         // If there is a non-empty uncompressed prefix, register it as a new
         // entry here.
-        if !name.is_empty() && contents.len() < 16384 {
+        if !name.is_empty() && contents.len() + 12 < 16384 {
             // SAFETY: 'name' is a non-empty sequence of labels.
             let first = unsafe {
                 LabelIter::new_unchecked(name).next().unwrap_unchecked()
@@ -252,6 +252,11 @@ impl NameCompressor {
             // 'name' can be compressed using this entry.
             let rest = name_labels.remaining();
             let pos = pos + entry.len();
+            if pos + 12 >= 16384 {
+                // A compression pointer only has 14 bits, counted from the
+                // start of the message (12 octets before 'contents').
+                continue;
+            }
             return Some((i as u8, rest, pos as u16));
         }
 
@@ -318,7 +323,7 @@ impl NameCompressor {
 
         // If there is a non-empty uncompressed prefix, register it as a new
         // entry here. We already know what the hash of its last label is.
-        if !name.is_empty() && contents.len() < 16384 {
+        if !name.is_empty() && contents.len() + 12 < 16384 {
             // Pick the entry that was least recently used (or uninitialized).
             //
             // By the invariants of 'last_use', it is guaranteed that this
@@ -395,6 +400,9 @@ impl NameCompressor {
                     // more label before it. This label needs to be found and
                     // hashed.
 
+                    if pos + 12 >= 16384 {
+                        continue;
+                    }
                     let rest = &name[..name.len() - entry.len()];
                     let hash = Self::hash_label(Self::last_label(rest));
                     return Some((i as u8, rest, hash, pos as u16));
@@ -404,6 +412,9 @@ impl NameCompressor {
                     let rest = &name[..0];
                     let hash = 0u16;
                     let pos = pos + len - name.len();
+                    if pos + 12 >= 16384 {
+                        continue;
+                    }
                     return Some((i as u8, rest, hash, pos as u16));
                 }
             };
@@ -444,6 +455,9 @@ impl NameCompressor {
             let rest = &name[..name.len() - suffix_len];
             let hash = Self::hash_label(prev_in_name);
             let pos = pos + len - suffix_len;
+            if pos + 12 >= 16384 {
+                continue;
+            }
             return Some((i as u8, rest, hash, pos as u16));
         }
 
